@@ -1,1 +1,28 @@
-From LV Require Import Base.Bytes Gen.GenBurl Gen.GenH1 Url.UrlModel H1.H1Model.
+(* C01 -- HTTP/1.x request framing is unambiguous; malformed framing is rejected.
+   Property theorems only; proofs in H1/H1Proofs.v.  The model (H1/H1Model.v) is tied to
+   src/request.c, src/http_header.c, src/http_kv.c by Gen/GenH1.v (header-name table, ids, methods)
+   and by differential correspondence (harness/h1req_h.c <-> extracted h1_parse). *)
+From LV Require Import Base.Bytes Gen.GenBurl Gen.GenH1 Url.UrlModel H1.H1Model H1.H1Proofs.
+Local Open Scope N_scope.
+
+(* repeated Content-Length: whatever precedes, separates or follows the two fields and whatever their
+   values are, the field fold never ends in Go (the head is rejected) *)
+Theorem reject_dup_content_length : forall st pre v1 mid v2 post st',
+  fold_fields st (pre ++ (ID_CONTENT_LENGTH, v1) :: mid ++ (ID_CONTENT_LENGTH, v2) :: post) <> Go st'.
+Proof. exact dup_content_length_rejected. Qed.
+Print Assumptions reject_dup_content_length.
+
+(* a Content-Length that is taken is non-empty, all digits and at most INT64_MAX *)
+Theorem reject_bad_content_length : forall st v st',
+  field_step st (ID_CONTENT_LENGTH, v) = Go st' ->
+  v <> [] /\ forallb is_digit v = true /\ (0 <= dec_val v <= INT64_MAX)%Z.
+Proof. exact bad_content_length_rejected. Qed.
+Print Assumptions reject_bad_content_length.
+
+(* a Transfer-Encoding that is taken is empty (no coding named) or exactly "chunked" on HTTP/1.1,
+   and then the declared framing is chunked *)
+Theorem reject_te_not_chunked_or_http10 : forall st v st',
+  field_step st (ID_TRANSFER_ENCODING, v) = Go st' ->
+  v = [] /\ st' = st \/ (st_http11 st = true /\ eq_icase v s_chunked = true /\ st_rlen st' = (-1)%Z).
+Proof. exact te_step. Qed.
+Print Assumptions reject_te_not_chunked_or_http10.
